@@ -163,6 +163,8 @@ pub struct State<I> {
     pub flush_open: bool,
     credit: bool,
     pub close_called: bool,
+    /// value of `order` when poll_close was first called
+    pub close_first_order: Option<u64>,
     pub closed: bool,
     pub failed: bool,
     tx_waker: Option<Waker>,
@@ -224,6 +226,7 @@ pub fn new_mock<S, I>(
         flush_open: true,
         credit: false,
         close_called: false,
+        close_first_order: None,
         closed: false,
         failed: false,
         tx_waker: None,
@@ -542,6 +545,9 @@ impl<S: Abstract, I> Sink<S> for Mock<S, I> {
             return Poll::Ready(Err(TErr("poll_close")));
         }
         s.close_called = true;
+        if s.close_first_order.is_none() {
+            s.close_first_order = Some(s.order);
+        }
         if s.model == Model::Coupled && !s.buf.is_empty() {
             if s.flush_open {
                 s.flush_all();
